@@ -185,7 +185,7 @@ def run_svmc(prop, tier, jobs, level="model_checking", extra_assumptions=()):
             tot[k] += r["stats"].get(k, 0)
         exhaustive = exhaustive and r["exhaustive"]
         configs.append(r["config"])
-        for s in r.get("samples", [])[:2]:
+        for s in r.get("samples", [])[-2:]:
             if len(samples) < 12:
                 samples.append("[%s] %s" % (r["config"], s))
         for v in r["violations"]:
